@@ -27,11 +27,14 @@
   `torn_tail_partial`, `erase_encAll`, `get_ok_checked`, `readLoop_head`, the torn-erase facts …) are unchanged in
   SH/Lemmas/DiskCacheBytes.lean and still audited.
 
-  STILL PARTIAL: the torn-ERASE analogue at history level (erase torn after 0..4 bytes never loses another second, for the
-  fixed reader) is proved only per loop iteration (`torn_erase_magic`, `torn_erase3_skipped_when_fixed`, `look_boundary` for
-  records with the torn magic), not yet lifted to histories; I/O error branches, crc strength and fs assumptions as before.
+   * `torn_erase`, `torn_erase_is_erase_or_noop`  (reader with the fix, `tornEraseOk = true`) the 4-byte magic write of an erase
+                              torn after k = 0..4 bytes: k ≤ 2 → everything is re-read, k = 3, 4 → everything but that second;
+                              never another second lost; `torn_erase3_prefix_loses_later_second_history` = the pre-fix defect
+                              as a history-level `decide` witness (SH/Lemmas/DiskCacheTornErase.lean)
+  NOTHING of the property statement remains partial in Lean. Outside the theorems (assumptions, see checks/C09.py): I/O error
+  branches, crc strength (parameter), prefix-preserving file system, increasing file names, flock, size rotation on real files.
 -/
-import SH.Lemmas.DiskCacheTorn
+import SH.Lemmas.DiskCacheTornErase
 import SH.Gen.C09
 
 namespace SH.C09
@@ -96,6 +99,48 @@ theorem torn_tail (cfg : Cfg) (hcrc : ∀ b, cfg.crc b < 2 ^ 32) (ops : List Op)
   exact torn_tail_history cfg hcrc ops hok t d r hput n hn0 hn
 
 example : OpOk (.put 17 [9] false) ∧ 0 < 5 ∧ 5 ≤ headerSize + [9].length := by decide
+
+/-- C09 torn ERASE (full strength, history level, reader with the fix b1b680d2 = `tornEraseOk = true`): for EVERY history, EVERY
+    id and EVERY tear of the 4-byte magic write of `EraseBucket id` after k = 0..4 bytes, restart + drain returns
+      k = 0, 1, 2  (bytes EC 07 are common to both magics: the magic on disk is still the good one, `torn_erase_magic`)
+                   → all live seconds of the history, the one being erased included (the erase did not happen);
+      k = 3        (magic 0x590007EC, which the fixed reader skips like a deleted record)
+      k = 4        (magic 0x000007EC, the erase is complete)
+                   → all live seconds except that one;
+    never is any OTHER second lost, never a spurious one returned; an unknown id writes nothing. -/
+theorem torn_erase (cfg : Cfg) (hfix : cfg.tornEraseOk = true) (hcrc : ∀ b, cfg.crc b < 2 ^ 32) (ops : List Op)
+    (hok : ∀ op ∈ ops, OpOk op) (id k : Nat) (hk : k ≤ 4) :
+    (drain cfg ((spec ops).live.length + 1) (restart (tornErase (reach cfg ops) id k))).2 =
+      outs 0 (clearLive (if k ≤ 2 then (spec ops).live else liveErase id (spec ops).live)) :=
+  torn_erase_history cfg hfix hcrc ops hok id k hk
+
+/-- hence, with the fix, a torn erase is always one of the two legal outcomes of the history: as if the erase had not been
+    issued (`ops`), or as if it had completed (`ops ++ [erase id]`) -/
+theorem torn_erase_is_erase_or_noop (cfg : Cfg) (hfix : cfg.tornEraseOk = true) (hcrc : ∀ b, cfg.crc b < 2 ^ 32) (ops : List Op)
+    (hok : ∀ op ∈ ops, OpOk op) (id k : Nat) (hk : k ≤ 4) :
+    (drain cfg ((spec ops).live.length + 1) (restart (tornErase (reach cfg ops) id k))).2 = outs 0 (clearLive (spec ops).live) ∨
+    (drain cfg ((spec ops).live.length + 1) (restart (tornErase (reach cfg ops) id k))).2 =
+      outs 0 (clearLive (spec (ops ++ [.erase id])).live) := by
+  rw [torn_erase cfg hfix hcrc ops hok id k hk]
+  by_cases h : k ≤ 2
+  · left; rw [if_pos h]
+  · right; rw [if_neg h]
+    simp [spec, absRun, List.foldl_append, absStep]
+
+/-- THE CODE BEFORE THE FIX (`cfg0.tornEraseOk = false`), at history level, on a concrete history: two puts into one file, the
+    erase of the first torn after 3 bytes, restart, drain: NOTHING comes back — the second put (time 17, never erased, its
+    write not torn) is lost; the same history with the fixed reader returns it. This is the defect fixed by b1b680d2. -/
+def opsT : List Op := [.put 15 [1, 2] false, .put 17 [9] false]
+theorem torn_erase3_prefix_loses_later_second_history :
+    (spec opsT).live = [(some 1, 15, [1, 2]), (some 2, 17, [9])] ∧
+    (drain cfg0 3 (restart (tornErase (reach cfg0 opsT) 1 3))).2 = [] ∧
+    (drain cfgFixed 3 (restart (tornErase (reach cfgFixed opsT) 1 3))).2 = [(17, 1)] := by decide
+
+example : cfgFixed.tornEraseOk = true ∧ (∀ op ∈ opsT, OpOk op) ∧ 3 ≤ 4 := by decide
+/-- the hypothesis on the checksum parameter is satisfiable (as it is by crc32c): a 32-bit valued function, reader with the fix -/
+def cfgB : Cfg := { crc := fun b => b.length % 4294967296, tornEraseOk := true }
+example : (∀ b, cfgB.crc b < 2 ^ 32) ∧ cfgB.tornEraseOk = true := ⟨fun b => Nat.mod_lt _ (by decide), rfl⟩
+example : outs 0 (clearLive (liveErase 1 (spec opsT).live)) = [(17, 1)] := by decide
 
 /-- C09 `erased_never_returned` (every history): whatever GetBucket returns in any reachable state is a second of the live
     sequence with that id and time (so it was put and not erased, and the bytes are the bytes put); whatever
